@@ -17,6 +17,9 @@ import (
 
 var tokKinds = []string{"generic", "expression", "csv", "mustache"}
 
+// tokKindsExt adds differently configured instances of the built-in tokenizers
+var tokKindsExt = []string{"generic", "expression", "csv", "mustache", "csv+latin1", "csv+wide"}
+
 func newTokenizer(kind string) tokenizers.ITokenizer {
 	switch kind {
 	case "generic":
@@ -27,6 +30,17 @@ func newTokenizer(kind string) tokenizers.ITokenizer {
 		return csv.NewCsvTokenizer()
 	case "mustache":
 		return mtok.NewMustacheTokenizer()
+	case "csv+latin1":
+		// separator and quote symbol from the Latin-1 supplement (two UTF-8 bytes, below U+0100)
+		t := csv.NewCsvTokenizer()
+		t.SetFieldSeparators([]rune{0xa6})
+		t.SetQuoteSymbols([]rune{0xab, 0xff})
+		return t
+	case "csv+wide":
+		t := csv.NewCsvTokenizer()
+		t.SetFieldSeparators([]rune{0x2192, ';'})
+		t.SetQuoteSymbols([]rune{0x201d, '\''})
+		return t
 	case "generic+cpp":
 		// the generic tokenizer configured with the library's C++ comment state ('/*..*/' and '//..')
 		t := generic.NewGenericTokenizer()
